@@ -754,7 +754,7 @@ pub fn def() -> PropDef {
         assumptions: &["labels with an empty value may be stored as absent or as empty", "label names unique per series, every series has __name__", "overflow checks off (release semantics): arithmetic overflow is not a panic"],
         subs: || {
             vec![
-                Box::new(Sub::<PReq> { name: "prom-fidelity", cases: |t| t.scale(3_000, 10), strategy: |_| preq(false).boxed(), exec: exec_prom_fidelity }),
+                Box::new(Sub::<PReq> { name: "prom-fidelity", cases: |t| t.scale(6_000, 8), strategy: |_| preq(false).boxed(), exec: exec_prom_fidelity }),
                 Box::new(Sub::<PReq> { name: "prom-colliding-labels", cases: |t| t.scale(500, 10), strategy: |_| preq(true).boxed(), exec: exec_prom_fidelity }),
                 Box::new(Sub::<BytesCase> {
                     name: "prom-bytes",
@@ -764,7 +764,7 @@ pub fn def() -> PropDef {
                 }),
                 Box::new(Sub::<OReq> {
                     name: "otlp",
-                    cases: |t| t.scale(2_000, 10),
+                    cases: |t| t.scale(5_000, 8),
                     strategy: |_| (prop::collection::vec((prop::collection::vec((0u8..3, 0u8..6), 0..3), prop::collection::vec((0u8..6, 0u8..4, 0u8..5, 0u8..16, prop::collection::vec((0u8..10, 0u8..6), 0..3)).prop_map(|(kind, name, ts, value, attrs)| OPoint { kind, name, ts, value, attrs }), 0..4)), 1..3), 0u8..4).prop_map(|(resources, ts_base)| OReq { resources, ts_base }).boxed(),
                     exec: exec_otlp,
                 }),
